@@ -219,7 +219,7 @@ def eval_case(c):
     if np.any(sv < -1e-12) or np.any(np.diff(sv) > 1e-10 * scale):
         msgs.append("singular values not non-negative descending")
     # independent fractionally whitened cross-covariance (all covariances with N-1)
-    if not hilb:
+    if True:
         Xc, Yc = X - X.mean(0), Y - Y.mean(0)
         def reduce(Z, use, npc):
             if not use:
@@ -228,6 +228,14 @@ def eval_case(c):
             r = len(s_) if npc == "all" else npc
             return Z @ Vh[:r].conj().T
         Xr, Yr = reduce(Xc, c["use_pca"], c["n_pca"]), reduce(Yc, c["use_pca"], c["n_pca"])
+        if hilb:
+            # the Hilbert augmentation (library kernel, taken as given here) is applied to the PCA-reduced series, before whitening
+            from xeofs.utils.hilbert_transform import hilbert_transform
+            par = m.get_params()
+            def aug(Z, i):
+                da_ = xr.DataArray(Z, dims=("time", "f"), coords={"time": np.arange(Z.shape[0]), "f": np.arange(Z.shape[1])})
+                return hilbert_transform(da_, dims=("time", "f"), padding=par["padding"][i], decay_factor=par["decay_factor"][i]).values
+            Xr, Yr = aug(Xr, 0), aug(Yr, 1)
         a1, a2 = c["alpha"]
         Cxx, Cyy = Xr.conj().T @ Xr / (nn - 1), Yr.conj().T @ Yr / (nn - 1)
         Cw = _fpow(Cxx, (a1 - 1) / 2) @ (Xr.conj().T @ Yr / (nn - 1)) @ _fpow(Cyy, (a2 - 1) / 2)
@@ -292,10 +300,11 @@ def bounded_cases(tier, seed):
                         cases.append(dict(model=model, n=nn, p=pp, q=qq, alpha=a, use_pca=use_pca, n_pca=npc, k=k,
                                           cplx=model.startswith("Complex")))
     for model, a in (("MCA", (1.0, 1.0)), ("CCA", (0.0, 0.0)), ("RDA", (0.0, 1.0)), ("ComplexMCA", (1.0, 1.0)),
-                     ("ComplexCCA", (0.0, 0.0)), ("ComplexRDA", (0.0, 1.0)), ("HilbertMCA", (1.0, 1.0)), ("HilbertCCA", (0.0, 0.0))):
+                     ("ComplexCCA", (0.0, 0.0)), ("ComplexRDA", (0.0, 1.0)), ("HilbertMCA", (1.0, 1.0)), ("HilbertCCA", (0.0, 0.0)),
+                     ("HilbertRDA", (0.0, 1.0)), ("HilbertCPCCA", (0.5, 0.5))):
         for use_pca, npc in ((False, "all"), (True, "all"), (True, 3)):
             cases.append(dict(model=model, n=36, p=5, q=4, alpha=a, use_pca=use_pca, n_pca=npc, k=2,
-                              cplx=model.startswith("Complex")))
+                              cplx=model.startswith("Complex"), keep=model.startswith("Hilbert") and use_pca and a != (1.0, 1.0) and npc == 3))
     # p > n: only with PCA (the whitener needs n > p)
     cases.append(dict(model="CPCCA", n=12, p=20, q=15, alpha=(0.5, 0.5), use_pca=True, n_pca=5, k=2, cplx=False))
     cases.append(dict(model="MCA", n=12, p=20, q=15, alpha=(1.0, 1.0), use_pca=True, n_pca="all", k=2, cplx=False))
@@ -344,6 +353,19 @@ def run(tier, seed):
     res.trusted = ["CPython on proxies", "vf/sym normaliser", "z3", "xarray dot/rename/apply_ufunc semantics as modelled"]
     agg = Agg(res, "C09")
     deductive(res, agg)
+    # the named classes (MCA, CCA, RDA and their Complex / Hilbert variants) are the general model with alpha pinned: every other
+    # option must reach the same state (constructor contract shared with C10)
+    from props import C10
+
+    class OnlyConstructors:
+        def __init__(self, agg):
+            self.agg = agg
+
+        def vc(self, function, clause, r, config=""):
+            if function == "constructors":
+                return self.agg.vc(function, clause, r, config)
+            return True
+    C10.deductive(res, OnlyConstructors(agg))
     agg.flush()
     run_bounded(res, tier, seed)
     return res
